@@ -55,6 +55,17 @@ def cases(tier, inst):
                         # every stream with the same name (identical parallel trains), and unit-operation targeting switched on
                         yield {"streams": ms, "part": list(part), "uset": ui, "form": "flat", "inst": list(inst), "samenames": True}
                         yield {"streams": ms, "part": list(part), "uset": ui, "form": "flat", "inst": list(inst), "optarget": True}
+    # a bench-scale site (loads of 1e-4 .. 1e-3): every absolute threshold of the library is larger than what the zones draw
+    small = (inst[0], inst[1], 1.7e-5 * inst[2], inst[3])
+    for ms in P.stream_multisets(small, 3, 2, cps=(1, 2), dts=(1,), iso=False, min_n=2):
+        for ui in (0, 1, 3):
+            yield {"streams": ms, "part": [0, 1], "uset": ui, "form": "flat", "inst": list(small)}
+    # two utility levels less than 1 K apart (a user above a generator) with the process streams of two zones INSIDE that sliver:
+    # no recovery is possible, neither directly nor through the utility system
+    T = A.lattice(inst, 3)
+    for q1, q2 in ((1, 1), (1, 2), (2, 1)):
+        for cont in (0.0, 0.2):
+            yield {"sliver": [q1, q2, cont], "part": [0, 1], "uset": -1, "form": "flat", "inst": list(inst), "streams": []}
     # two identical same-named streams inside ONE zone next to a second zone
     for ms in P.stream_multisets(inst, 3, 2, cps=(1, 2), dts=(1,), iso=False, min_n=2):
         for ui in (0, 1):
@@ -63,6 +74,14 @@ def cases(tier, inst):
 
 def build(case):
     inst = tuple(case["inst"])
+    if case.get("sliver"):
+        q1, q2, cont = case["sliver"]
+        Tm = A.lattice(inst, 3)[1]
+        cpu, u = inst[2], A.utility_dict
+        streams = [(Tm + 0.5, Tm + 0.4, 10 * cpu * q1, 0.0), (Tm + 0.6, Tm + 0.7, 10 * cpu * q2, 0.0)]
+        uts = [u("MP", "Hot", Tm + 1.0, Tm + 1.0, dt=cont), u("LPgen", "Cold", Tm, Tm, dt=cont),
+               u("HP", "Hot", Tm + 100, Tm + 100, dt=cont), u("CW", "Cold", Tm - 100, Tm - 100, dt=cont)]
+        return A.problem(streams, ["A", "B"], utilities=uts)
     streams = [tuple(s) for s in case["streams"]]
     part = case["part"]
     names = ["A", "B", "C", "D"]
@@ -91,6 +110,8 @@ def run(case, res: Result):
     prob = build(case)
     out, master = S.run(prob)
     tag = f"{case['form']}:u{case['uset']}" + (":samenames" if case.get("samenames") else "") + (":optarget" if case.get("optarget") else "")
+    if case.get("sliver"):
+        tag += ":sliver"
     tot = sum(abs(S.st_of(s)[2]) for s in prob["streams"])
     eps = 1e-6 * tot
     recs = S.records(out)
@@ -157,7 +178,7 @@ SUBCHECKS = {
         rule="case = stream multiset x partition into zones x utility set x label form (flat / nested / explicit tree / tree of two sub-sites); "
              "non-trivial = inter-zone recovery happens (TS < TZ) or both sides of the summed targets are non-zero; counted separately in stats",
         cases=cases, run=run,
-        bound=lambda t: ("2-3 streams over 12 stream types, <=3 zones, 5 utility sets" if t == "quick" else "2-4 streams over 18 types (latent incl.), <=4 zones, 5 utility sets, all label forms") + " + one-zone sites + sites of two sub-sites (explicit tree)"
+        bound=lambda t: ("2-3 streams over 12 stream types, <=3 zones, 5 utility sets" if t == "quick" else "2-4 streams over 18 types (latent incl.), <=4 zones, 5 utility sets, all label forms") + " + one-zone sites + sites of two sub-sites (explicit tree) + a bench-scale site + streams inside a <1 K sliver between a use and a generation level"
         + " + same-name streams and unit-operation targeting variants",
     ),
 }
